@@ -206,6 +206,13 @@ def check_C14(res, tier, seed, replay):
         mc(res, 'Collections', 'MC_Collections_q.cfg' if tier == 'quick' else 'MC_Collections_t.cfg',
            'Collections.tla: Horton / FVS (every feedback vertex set) / ISO (linking rules of ISOCyclesBuilder incl. the operator[] fallback) on the canonical trees: sound, sufficient, fallback never taken')
     res.cov['exhaustive_space'] = 'all simple labelled graphs with <= %d vertices, weights {1,2} (TLC-enumerated): %d' % (N, ne)
+    # small graphs in which equal-weight shortest paths with different numbers of edges are common (the isometric filter relies on
+    # the mutual consistency of the trees exactly there; a lost tie-break shows on about one such graph in a thousand)
+    for _ in range(4000 if tier == 'quick' else 30000):
+        n = rng.randint(5, 7)
+        m = rng.randint(n, min(n * (n - 1) // 2, 10))
+        ws = rng.choice([[1, 2], [1, 2, 3], [1, 2, 3]])
+        inputs.append((gens.rand_graph(rng, n, m, lambda: rng.choice(ws)), 1))
     run_comp(res, tier, seed, replay, 'coll', inputs, types='double,int')
     res.cov['distinct_nontrivial'] = len({canon(g) for g, _ in inputs if gens.csd(g) >= 2})
     res.cov['rule'] = 'Horton/FVS/ISO builders on every input; non-trivial = distinct graph with cycle-space dimension >= 2'
